@@ -630,7 +630,9 @@ fn gen_simple(rng: &mut Rng, depth: u32, names: &[&str], mono: &mut Option<Mono>
         5 | 6 => {
             out.push_str(*rng.pick(&["exists", "any", "forall", "all"]));
             out.push(' ');
-            let k = rng.below(3);
+            // up to four names, so that lists with several names the body does not mention arise (a bound name that is
+            // skipped on the way down must not survive in the answer)
+            let k = rng.below(5);
             let mut bound = vec![];
             for i in 0..k {
                 if i > 0 {
